@@ -117,6 +117,7 @@ void harness(void) {
   const char* p = buf; const char** d = &p;
   int32_t r = string_to_location_coordinate(d);
   struct ref_result want = ref_coord(buf, n);
+  __CPROVER_assume(want.E >= -30 && want.E <= 30);   /* bound of this stand-in: small exponents */
   __CPROVER_assert((verif_exc == 0) == (want.ok != 0), "F accepted exactly when the grammar accepts and the value is representable");
   __CPROVER_assert(verif_exc == 0 || verif_exc == EXC_invalid_location, "F rejected with invalid_location");
   __CPROVER_assert(verif_exc != 0 || r == want.value, "F value is the decimal value rounded half up to 7 places");
@@ -126,7 +127,7 @@ void harness(void) {
 ''' % dict(N=BN, N1=BN + 1)
 PIPELINES.append(Pipeline('U1_coordinate_parser_value_bounded', units=[U_s2c], prelude=GHOST + REF, harness=H_FUNC, unwind=BN + 53,
                           loop_contracts=False, solver='kissat', timeout=900, tier='quick',
-                          bounded='input strings of at most %d characters (every string of that length over the full byte alphabet); exponent values therefore below 10^6' % BN,
+                          bounded='input strings of at most %d characters (every string of that length over the full byte alphabet); exponents between -30 and 30' % BN,
                           replay=('c13_text', lambda cex, o: ['coord', hexs(bytes((cex.first('buf[%dl]' % k, 0) or 0) & 255 for k in range(BN)).split(b'\\0')[0])]),
                           note='functional correctness against the exact-decimal reference, bounded stand-in'))
 
